@@ -332,9 +332,59 @@ def local_step(acc, pendulum, history, replaying):
                "fromtimestamp(local_timezone())", dict(base, op="fromtimestamp(local_timezone())"))
 
 
+TZ_SPELLINGS = (("Europe/Paris", "Europe/Paris"), (":Europe/Paris", "Europe/Paris"), (":America/New_York", "America/New_York"),
+                ("/usr/share/zoneinfo/Asia/Tokyo", "Asia/Tokyo"), (":/usr/share/zoneinfo/Australia/Lord_Howe", "Australia/Lord_Howe"))
+
+
+def check_local_env(acc, pendulum, spelling, zone):
+    """Runs in a process STARTED with TZ=<spelling>: the library finds the machine's zone by itself (no mock).  Conversions
+    to 'local' render the instant as that zone does (the zone's name is only asserted for the name spellings: a zone read
+    from a file path has none)."""
+    trs = [tr for tr in seeds.zone_transitions(zone) if 0 < tr[0] < 2000000000][-4:]
+    insts = [p for tr in trs for p in seeds.probe_instants(*tr, full=False)] + seeds.grid_instants(370)[4:8] + [-86400 * 365 * 30 * US + 250000]
+    tokyo = pendulum.timezone("Asia/Kolkata")
+    for inst in insts:
+        u = obs.utc_dt(pendulum, inst)
+        exp = obs.expected_render(zone, inst)
+        acc.c["states"] += 1
+        for name, fn in (("in_timezone('local')", lambda: u.in_timezone("local")), ("in_tz('local')", lambda: u.in_tz("local")),
+                         ("chain->local", lambda: u.in_timezone(tokyo).in_timezone("local")),
+                         ("from_timestamp(local)", lambda: pendulum.from_timestamp(inst / US, "local")),
+                         ("local_timezone().convert", lambda: pendulum.local_timezone().convert(obs.native_utc(inst)))):
+            if "from_timestamp" in name and not (inst % US == 0 or abs(inst // US) < (1 << 31)):
+                continue
+            acc.c["evaluations"] += 1
+            acc.c["transitions"] += 1
+            try:
+                r = fn()
+                got = (obs.fields(r), obs.offset_s(r))
+                nm = getattr(r, "timezone_name", None)
+            except Exception as e:  # noqa: BLE001
+                got, nm = f"raises {type(e).__name__}", None
+            case = {"kind": "localenv", "TZ": spelling, "zone": zone, "inst": inst, "op": name}
+            if got != exp:
+                acc.mismatch(name, "machine-zone-from-TZ", case, got, exp)
+            elif "/usr/" not in spelling and nm is not None and nm != zone:
+                acc.mismatch(name, "machine-zone-name", case, nm, zone)
+
+
+def _local_env_fresh(arg):
+    import pendulum
+    acc = core.Acc(ID)
+    check_local_env(acc, pendulum, arg["TZ"], arg["zone"])
+    return acc.result()
+
+
 def run_shard(shard):
     import pendulum
     acc = core.Acc(ID)
+    if shard.get("kind") == "local-env":
+        if worker.CTX["config"].get("tz", "sys") == "sys":      # file-path spellings read the system database
+            for spelling, zone in TZ_SPELLINGS:
+                acc.absorb(worker.fresh_call("c01", "_local_env_fresh", {"TZ": spelling, "zone": zone}, {"TZ": spelling}))
+                acc.c["nontrivial"] += 1
+            acc.sample({"machine_zone_from_TZ_spellings": [s_ for s_, _ in TZ_SPELLINGS]})
+        return acc.result()
     if shard.get("kind") == "chains":
         from .. import chain
         for sd in shard["seeds"]:
@@ -413,6 +463,12 @@ def replay_case(case, acc):
         from .. import chain
         chain.replay(acc, pendulum, case, {'conv'})
         return
+    if case.get("kind") == "localenv":
+        if worker.CTX["config"].get("TZ") != case["TZ"]:
+            acc.absorb(worker.fresh_call("c01", "_local_env_fresh", {"TZ": case["TZ"], "zone": case["zone"]}, {"TZ": case["TZ"]}))
+        else:
+            check_local_env(acc, pendulum, case["TZ"], case["zone"])
+        return
     if case.get("kind") == "local":
         try:
             local_step(acc, pendulum, case["history"], replaying=True)
@@ -451,6 +507,7 @@ def plan(tier, seed):
     cs = chain.chain_seeds(seed, 3 if not thorough else 8)
     shards += [{"kind": "chains", "seeds": ch, "depth": 3, "witness": witness} for ch in seeds.chunks(cs, 32)]
     shards.append({"kind": "local", "zones": ["Europe/Paris", "Asia/Tokyo", "America/St_Johns", "UTC"]})
+    shards.append({"kind": "local-env"})
     plans = [({"ext": 1, "tz": "sys"}, shards)]
     if thorough:
         plans.append(({"ext": 0, "tz": "pkg"}, shards))
